@@ -666,3 +666,69 @@ def all_templates(max_arity: int = 3, kids: str = "pest"):
         *terminal_templates(), *stack_templates(), *combinator_templates(max_arity), *loop_templates(),
         *stack_loop_templates(), *identifier_templates(), *rule_templates(kids), *trivia_templates(), *entry_templates(),
     ]
+
+
+# ================================================================== optimizer-only nodes (C02)
+def skipuntil_templates():
+    gx = _gx()
+    out = []
+    for subs in (["a"], ["a", "b"], ["b", "ab"], ["\n", "\r\n"], [], ["ab", "b", "abc"]):
+        def mk(subs=subs):
+            class T(TemplateMixin, ops.SkipUntilSpec):  # type: ignore[misc]
+                best_var = "idx3"
+
+                def __init__(self):
+                    ops.SkipUntilSpec.__init__(self)
+                    self.label = f"template:SkipUntil({subs!r})"
+                    self.target = self.label
+
+                def build(self):
+                    code, consts = emit.emit_expression(gx.SkipUntil(list(subs)))
+                    return expr_template(code, consts)
+
+                def mk_self(self, run):
+                    seq = z3.Empty(ops.SeqStrSort)
+                    for s0 in subs:
+                        seq = z3.Concat(seq, z3.Unit(z3.StringVal(s0)))
+                    run.assume(ops.SUBS == seq)
+                    return ops.SkipUntilSpec.mk_self(self, run)
+
+                def constant_value(self, run, name, ex):
+                    val = ast.literal_eval(ex)
+                    assert val == list(subs)
+                    return run.obj(run.pre["me"])["subs"]
+
+            return T()
+
+        out.append(mk())
+    return out
+
+
+def regex_node_templates():
+    from pest.grammar.expression import RegexExpression
+    from pest.grammar.expressions.choice import ChoiceCase, ChoiceLiteral, ChoiceRange, OptimizedChoice
+
+    out = []
+
+    def mk(kind, node_fn, tag):
+        class T(TemplateMixin, ops.RegexNodeSpec):  # type: ignore[misc]
+            def __init__(self):
+                ops.RegexNodeSpec.__init__(self, kind)
+                self.label = f"template:{kind}[{tag}]"
+                self.target = self.label
+
+            def build(self):
+                code, consts = emit.emit_expression(node_fn())
+                return expr_template(code, consts)
+
+            def resolve_name(self, run, name):
+                if name in getattr(self, "_consts", {}):
+                    # the emitted constant is the node's own pattern (text identity is checked in C12)
+                    return run.obj(run.pre["me"])["regex"]
+                return TemplateMixin.resolve_name(self, run, name)
+
+        return T()
+
+    out.append(mk("RegexExpression", lambda: RegexExpression(r"\p{L}"), "prop"))
+    out.append(mk("OptimizedChoice", lambda: OptimizedChoice([ChoiceLiteral("ab", ChoiceCase.SENSITIVE), ChoiceRange("0", "9")]), "mixed"))
+    return out
